@@ -562,9 +562,14 @@ def build_grammar(spec):
 PAT_SAMPLES = dict(PATTERNS_CLEAN + PATTERNS_RISKY + PATTERNS_WIDE)
 
 
+NOSP = '\x01'      # marks a piece of a sentence that must not be preceded by blanks
+
+
 def sentence(e, rules, rng, depth=0, rich=False) -> str:
     """a sentence of e.  rich: every optional part is taken and every repetition runs at least twice, so that the
-    text holds separators / repeated items (what tells a join from a gather, a closure from a group, ...)"""
+    text holds separators / repeated items (what tells a join from a gather, a closure from a group, ...).
+    Patterns and the dot do not skip whitespace (only tokens, metas and rule calls do): their samples are glued to
+    what precedes them (NOSP, removed by sample_inputs)."""
     k = e[0]
     sp = rng.choice([' ', ' ', ' ', '', '  '])
 
@@ -572,20 +577,26 @@ def sentence(e, rules, rng, depth=0, rich=False) -> str:
         return sentence(x, rules, rng, d, rich)
 
     def cat(parts):
-        return sp.join(p for p in parts)
+        out = ''
+        for i, p in enumerate(parts):
+            if p == '':
+                continue
+            out += p if (not out or p.startswith(NOSP)) else sp + p
+        return out
     if k == 'tok':
         return e[1]
     if k == 'pat':
-        return rng.choice(PAT_SAMPLES.get(e[1], ['']))
+        return NOSP + rng.choice(PAT_SAMPLES.get(e[1], ['']))
     if k == 'meta':
         return rng.choice(META_SAMPLE[e[1]])
     if k in ('call', 'include'):
         r = rules.get(e[1])
         if not r or depth >= 8:
             return ''
-        return sentence(r['exp'], rules, rng, depth + 1, rich and depth < 1)
+        t = sentence(r['exp'], rules, rng, depth + 1, rich and depth < 1)
+        return t.lstrip(NOSP) if k == 'call' else t      # a rule call skips blanks first
     if k == 'dot':
-        return rng.choice('x9+')
+        return NOSP + rng.choice('x9+')
     if k == 'eol':
         return '\n'
     if k in ('const', 'alert', 'eof', 'void', 'cut', 'empty', 'nla', 'fail'):
@@ -642,6 +653,7 @@ def sample_inputs(spec, rng, n=4, rich=0):
             out.append(s)
     seen = []
     for s in out:
+        s = s.replace(NOSP, '')
         if s not in seen:
             seen.append(s)
     return seen
@@ -1110,6 +1122,10 @@ def signature(kind, detail, origin, spec) -> str:
         feats = sorted(feats)
     if kind in ('recompile-fails', 'parse-differs', 'not-fixpoint', 'pretty-raises', 'pretty2-raises'):
         detail = ''
+    if kind == 'structure-differs':
+        # the detail names the two constructors; of the grammar only its layout matters (a failure that needs a
+        # wrapped body cannot be shrunk below the wrapping width: the literals left in it are incidental)
+        return f'{kind}[{detail}]:' + ('wrapped' if wrapped(spec, origin) else 'one-line')
     if 'empty' in feats and kind in ('recompile-fails', 'not-fixpoint', 'rules-differ') and \
             not any(f.split(':')[0] in RISKY_FEATS or f in RISKY_FEATS for f in feats):
         # `{}` at the end of a rule swallows the next rule header (D8k): what is left of the swallowed rule after
@@ -1373,14 +1389,29 @@ def est(e) -> int:
         return 0
 
 
+def core(e):
+    return e[2] if e[0] in NAMED else e
+
+
+def spaced(rng, items):
+    """a pattern does not skip blanks and a name-like token must not run into a letter (nameguard): put a
+    punctuation token between a name-like token and a pattern that follows it"""
+    out = []
+    for x in items:
+        if out and core(x)[0] == 'pat' and core(out[-1])[0] == 'tok' and core(out[-1])[1][-1:].isalnum():
+            out.append(('tok', rng.choice(['=', '(', '::=', '+', '-->'])))
+        out.append(x)
+    return out
+
+
 def wide_seq(rng, lo, hi):
     """a sequence of non-nullable leaves whose one-line form is between lo and hi columns wide"""
     items = [('tok', rng.choice(['a', '+', 'begin']))]
     while est(('seq', items)) < lo:
         x = wide_leaf(rng)
-        if est(('seq', items + [x])) > hi:
+        if est(('seq', spaced(rng, items + [x]))) > hi:
             x = ('tok', rng.choice(['a', 'b', '+']))
-        items.append(x)
+        items = spaced(rng, items + [x])
     return ('seq', items)
 
 
@@ -1388,8 +1419,8 @@ def wide_choice(rng, lo, hi):
     opts = []
     while not opts or est(('choice', opts)) < lo:
         n = rng.choice([1, 1, 2, 3])
-        o = [wide_leaf(rng) for _ in range(n)]
-        o = o[0] if n == 1 else ('seq', o)
+        o = spaced(rng, [wide_leaf(rng) for _ in range(n)])
+        o = o[0] if len(o) == 1 else ('seq', o)
         if opts and est(('choice', opts + [o])) > hi:
             o = ('tok', rng.choice(['a', 'b', '+']))
         opts.append(o)
